@@ -83,7 +83,9 @@ DisconnectExpect(o) ==
 
 \* AUTH options: [reason, method, data, ups]  (the reason string cannot be set through the public API)
 AuthExpect(o) ==
-  IF Has(o.data) /\ ~Has(o.method) THEN [Exp0 EXCEPT !.refused = TRUE, !.t = "AUTH"]
+  \* extended authentication needs both method and data; only the bare "reason 0x00, nothing else" packet goes without
+  IF ~(Has(o.method) /\ Has(o.data)) /\ (Has(o.method) \/ Has(o.data) \/ o.ups # <<>> \/ (Has(o.reason) /\ o.reason[1] # 0))
+  THEN [Exp0 EXCEPT !.refused = TRUE, !.t = "AUTH"]
   ELSE LET rc == IF Has(o.reason) THEN o.reason[1] ELSE 0
            ps == OptS(21, o.method) \o OptS(22, o.data) \o Ups(o.ups)
            long == Framed(1 + PropsFieldLen(ps))
